@@ -126,6 +126,16 @@ class X(ExprMixin, CallMixin):
             if h is not None: h(self, base, [v], {}, st); return
             st.heap[base.oid][t.attr] = v
         elif isinstance(t, (ast.Tuple, ast.List)):
+            vv = v
+            if isinstance(vv, VRef) and "$l" in st.heap.get(vv.oid, {}): vv = st.heap[vv.oid]["$l"]
+            if isinstance(vv, VList) and any(isinstance(i, tuple) for i in vv.items):
+                # unpacking a list with guarded elements: exactly len(targets) elements must be present, else ValueError
+                g = [(i[1], i[2]) if isinstance(i, tuple) else (T, i) for i in vv.items]
+                k = len(t.elts)
+                exact = AND(*[p for p, _ in g[:k]], *[NOT(p) for p, _ in g[k:]]) if len(g) >= k else F
+                self.raise_if(st, NOT(exact), "ValueError", t)
+                for tt, (_, val) in zip(t.elts, g[:k]): self.assign(tt, val, st)
+                return
             items = self.unpack(v, st, t)
             if len(items) != len(t.elts):
                 self.raise_if(st, T, "ValueError", t); return
